@@ -210,6 +210,11 @@ class C13(Property):
                 else:
                     e = "ok:%s:%s" % (",".join(hx(x.encode()) for x in exp[1]), ",".join("%d>%d" % p for p in exp[2]))
             lines.append("read x fmt=%s hex=%s expect=%s%s" % (fmt, hx(b), e, (" args=" + argstr) if argstr else ""))
+            # a UTF-8 byte-order mark, a blank or a comment line in front, CR LF line ends (no expectation: the reference is the model)
+            if rng.random() < 0.06:
+                variant = rng.choice([b"\xef\xbb\xbf" + b, b"\n" + b, b"\r\n" + b, b.replace(b"\n", b"\r\n"), b"# c\n" + b, b" \n" + b, b.rstrip(b"\n")])
+                if not BIG.search(variant):
+                    lines.append("read x fmt=%s hex=%s" % (fmt, hx(variant)))
             # mutations of the same file (no expectation)
             for _ in range(2):
                 m = mutate(rng, b)
